@@ -128,6 +128,38 @@ def _apply_member_op(el, a):
         pass
 
 
+def _member_validators(specs):
+    import flatland.validation as V
+    out = []
+    for sp in specs:
+        out.append(getattr(V, sp[0])(*sp[1:]))
+    return out
+
+
+def _apply_vstate(cont, vs):
+    """prior validation state on a container and its children — none of it is an input of any documented predicate:
+    an earlier whole-tree validate() (members may carry other validators: b['vstate']['member_validators']), members
+    repaired / appended afterwards, `.valid` assigned arbitrarily (True / False / Unevaluated), errors left on members"""
+    from flatland.schema.base import Unevaluated
+    if vs.get("prevalidate"):
+        cont.validate()
+    for i, val in vs.get("repair", []):
+        kids = list(cont.children)
+        if i < len(kids):
+            kids[i].set(val)
+    for val in vs.get("append", []):
+        if hasattr(cont, "append"):
+            cont.append(val)
+    kids = list(cont.children)
+    for i, flag in vs.get("flags", []):
+        target = cont if i == "container" else (kids[i] if i < len(kids) else None)
+        if target is not None:
+            target.valid = Unevaluated if flag is None else flag
+    for i, msgs in vs.get("sib_errors", []):
+        if i < len(kids):
+            kids[i].errors.extend(msgs)
+
+
 def build(case):
     """-> the element on the real flatland, after the recipe's whole history of set()/set_flat() calls.
     `b["history"]` lists earlier inputs (good, bad, garbage) applied before the recipe's final one; the element
@@ -170,6 +202,8 @@ def build(case):
         member = _scalar_cls(b["member"]).named(b.get("member_name"))
         if "member_label" in b:
             member = member.using(label=b["member_label"])
+        if b.get("vstate", {}).get("member_validators"):
+            member = member.using(validators=_member_validators(b["vstate"]["member_validators"]))
         cont = getattr(flatland, kind).named(b.get("name")).of(member)
         if "label" in b:
             cont = cont.using(label=b["label"])
@@ -183,6 +217,8 @@ def build(case):
             obj = _seq_value(b["values"])
             el.set(obj)
             op = "set"
+        if "vstate" in b:
+            _apply_vstate(el, b["vstate"])
         target = el[b["index"]] if "index" in b else el
         return tag(target, el, op, obj)
     if kind == "fields":
@@ -197,6 +233,8 @@ def build(case):
             el.set(_garbage(h["garbage"]) if "garbage" in h else dict(h["pairs"]))
         for f in b["fields"]:
             el[f["name"]].set(f.get("set"))
+        if "vstate" in b:
+            _apply_vstate(el, b["vstate"])
         target = el[b["child"]] if "child" in b else el
         return tag(target, el, None, None)
     if kind == "Dict":
@@ -416,6 +454,8 @@ def view_of(case, el):
         view["container_label"] = _jval(cont.label)
         sibs = list(cont.children)
         view["siblings"] = [[_jval(s.value), s.u] for s in sibs]
+        # the validation state the siblings carry — told to the model, which provably ignores it (verdict_ignores_validation_state)
+        view["sibling_state"] = [[None if (s.valid is not True and s.valid is not False) else s.valid, len(s.errors)] for s in sibs]
         pos = [i for i, s in enumerate(sibs) if s is el]
         view["pos"] = pos[0] if pos else None
     if b["kind"] == "Dict":
@@ -1141,6 +1181,72 @@ def rand_dup_case(rng):
     return {"v": {"cls": "NotDuplicated"}, "build": b}
 
 
+def rand_vstate(rng, n, member_kind="String"):
+    """prior validation state for a container of n children"""
+    vs = {}
+    r = rng.random()
+    if r < 0.45:
+        vs["prevalidate"] = True
+        if rng.random() < 0.7:
+            vs["member_validators"] = rng.choice([[["NotDuplicated"], ["LongerThan", 3]], [["NotDuplicated"]], [["LongerThan", 1]],
+                                                  [["Present"], ["NotDuplicated"]], [["IsTrue"]]])
+        if rng.random() < 0.5 and n:
+            vs["repair"] = [[rng.randrange(n), rng.choice(["y", "a", "zzzz", "1"] if member_kind == "String" else [7, "1", "x"])]
+                            for _ in range(rng.randint(1, 2))]
+        if rng.random() < 0.5:
+            vs["append"] = [rng.choice(["a", "x", "b", "1", "abcd"]) for _ in range(rng.randint(1, 2))]
+    if r >= 0.45 or rng.random() < 0.3:
+        m = n + len(vs.get("append", []))
+        vs["flags"] = [[rng.randrange(m), rng.choice([True, False, False, None])] for _ in range(rng.randint(1, 3))] if m else []
+        if rng.random() < 0.2:
+            vs["flags"].append(["container", rng.choice([True, False])])
+    if rng.random() < 0.3 and n:
+        vs["sib_errors"] = [[rng.randrange(n), ["left over"]]]
+    return vs
+
+
+def with_vstate(rng, case):
+    """45% of the cases whose validator looks at other elements (siblings, children, referenced fields) get prior
+    validation state on those elements"""
+    b = case["build"]
+    if rng.random() >= 0.45:
+        return case
+    if b["kind"] in ("List", "Array") and not b.get("noset") and isinstance(b.get("values"), list):
+        n = len(b["values"])
+        b["vstate"] = rand_vstate(rng, n, b["member"])
+        if "index" in b:
+            # the judged member: any position of the final list, later ones more often (they have predecessors)
+            m = n + len(b["vstate"].get("append", []))
+            if m:
+                b["index"] = rng.choice([rng.randrange(m), m - 1])
+    elif b["kind"] == "fields":
+        vs = rand_vstate(rng, len(b["fields"]))
+        vs.pop("member_validators", None)
+        vs.pop("append", None)
+        vs.pop("repair", None)
+        b["vstate"] = vs
+    return case
+
+
+def vstate_dup_cases():
+    """NotDuplicated on every member of 2-3 member lists of a/b values after a whole-tree validate() under each of three
+    member chains, and with every assignment of valid in {True, False, Unevaluated} to the members"""
+    chains = [[["NotDuplicated"], ["LongerThan", 3]], [["NotDuplicated"]], [["LongerThan", 3]]]
+    for n in (2, 3):
+        for vals in itertools.product(["ab", "abcd"], repeat=n):
+            for idx in range(n):
+                base = {"kind": "List", "name": "colors", "member": "String", "member_name": "color", "values": list(vals), "index": idx}
+                for ch in chains:
+                    yield {"v": {"cls": "NotDuplicated"}, "build": dict(base, vstate={"prevalidate": True, "member_validators": ch})}
+                for flags in itertools.product([True, False, None], repeat=n):
+                    yield {"v": {"cls": "NotDuplicated"}, "build": dict(base, vstate={"flags": [[i, f] for i, f in enumerate(flags)]})}
+    # recovery: validate ['x','x'], repair member 0, append — judged at every member
+    for idx in range(3):
+        yield {"v": {"cls": "NotDuplicated"},
+               "build": {"kind": "List", "name": "colors", "member": "String", "member_name": "color", "values": ["x", "x"], "index": idx,
+                         "vstate": {"prevalidate": True, "member_validators": [["NotDuplicated"]], "repair": [[0, "y"]], "append": ["x"]}}}
+
+
 def all_dup_positions():
     """one duplicated value at every pair of positions of a 4-member list, checked at every index"""
     for i, j in itertools.combinations(range(4), 2):
@@ -1638,7 +1744,14 @@ def with_pre_errors(rng, case):
     return case
 
 
-_MAKERS = [(rand_numeric_case, 0.08), (rand_scalar_case, 0.27), (rand_seq_case, 0.09), (rand_dup_case, 0.09), (rand_fields_case, 0.09),
+def _vs(maker):
+    def f(rng):
+        return with_vstate(rng, maker(rng))
+    f.__name__ = maker.__name__
+    return f
+
+
+_MAKERS = [(rand_numeric_case, 0.08), (rand_scalar_case, 0.27), (_vs(rand_seq_case), 0.09), (_vs(rand_dup_case), 0.09), (_vs(rand_fields_case), 0.09),
            (rand_dict_case, 0.12), (rand_net_case, 0.20), (hostile_case, 0.06)]
 
 
@@ -1658,7 +1771,7 @@ class C15(Property):
         "decides_httpURL_partial", "httpURL_key", "httpPartsLoop_eq", "attr_table", "http_no_value_accepted", "C15_HttpFull_fails",
         "http_rule_honoured_partial", "http_netloc_rule_ignored",
         "decides_urlCanonicalizer", "canonicalizer_value", "canonicalizer_failure_keeps_value", "canonicalizer_idempotent",
-        "blankLoop_ok", "blankLoop_bad", "canonical_has_no_fragment", "value_preserved", "warn_eq_error",
+        "blankLoop_ok", "blankLoop_bad", "canonical_has_no_fragment", "value_preserved", "warn_eq_error", "verdict_ignores_validation_state", "notdup_ignores_valid",
         "decides_isEmail", "isEmail_length_on_idna", "isEmail_accepts_short_idna",
         "messages", "messages_total", "false_verdict_records_one", "true_verdict_records_nothing", "expansion_of_chosen",
         "verdict_shape",
@@ -1701,7 +1814,7 @@ class C15(Property):
     rule = ("every validator class x random parameterisations x String/Integer/Boolean elements set with None / adapted / unadapted text / blank / never set, "
             "List/Array with 0-5 members, members with duplicates at random positions, Dicts set with dict / pairs / flat / non-iterable / malformed raw values, "
             "Float/Decimal elements (8% of cases: inf, nan, sNaN, 1e999, 1.5, 4111111111111111.0 …) against Luhn10, the value-bound validators, ValueIn, ValuesEqual, NotDuplicated; e-mail and URL shape pools plus random assembly, e-mail domains of mixed ASCII / non-ASCII labels steered to every side of 253 characters as text and in IDN form (incl. text <= 253 < IDN), optional local_part_pattern; 6% hostile stream (validator on an element kind it is not documented for, missing field path, "
-            "negative counts, None bounds, ValueIn with a str as container, illegal discard_parts names); 7% of cases override message attributes (incl. the empty text, plural triples), 4% of scalar elements get value/u assigned directly; Dicts are also set from one-shot iterators, generators and dict views, SparseDict 30% — two thirds of them with 1-3 member operations (pop / del / clear / item assignment of declared and undeclared keys) between the set() and the validator call; NotDuplicated also on children of a Dict; 20% of cases start with pre-existing errors (incl. the very message).  non-trivial = the validator returned a verdict")
+            "negative counts, None bounds, ValueIn with a str as container, illegal discard_parts names); 7% of cases override message attributes (incl. the empty text, plural triples), 4% of scalar elements get value/u assigned directly; Dicts are also set from one-shot iterators, generators and dict views, SparseDict 30% — two thirds of them with 1-3 member operations (pop / del / clear / item assignment of declared and undeclared keys) between the set() and the validator call; NotDuplicated also on children of a Dict; 45% of the List/Array/fields cases (NotDuplicated, HasAtLeast/AtMost/Between, MapEqual family) carry prior validation state on the container and its children — an earlier whole-tree validate() with other validators in the member chain, members repaired / appended afterwards, .valid assigned True / False / Unevaluated, left-over errors — which no documented predicate reads; 20% of cases start with pre-existing errors (incl. the very message).  non-trivial = the validator returned a verdict")
 
     def corpus(self):
         out = []
@@ -1745,6 +1858,15 @@ class C15(Property):
                 out.append({"v": {"cls": cls}, "build": {"kind": "Dict", "name": "d", "fields": ["x", "y"],
                                                         "history": [{"t": "dict", "pairs": [["x", "1"], ["z", "3"]]}],
                                                         "raw": {"t": "garbage", "g": g}}})
+        # seeded C15-notduplicated-skips-invalid-siblings: the earlier occurrence failed another validator / carries a stale flag
+        lst = {"kind": "List", "name": "colors", "member": "String", "member_name": "color"}
+        out.append({"v": {"cls": "NotDuplicated"}, "build": dict(lst, values=["ab", "ab"], index=1, vstate={
+            "prevalidate": True, "member_validators": [["NotDuplicated"], ["LongerThan", 3]]})})
+        out.append({"v": {"cls": "NotDuplicated"}, "build": dict(lst, values=["x", "x"], index=2, vstate={
+            "prevalidate": True, "member_validators": [["NotDuplicated"]], "repair": [[0, "y"]], "append": ["x"]})})
+        out.append({"v": {"cls": "NotDuplicated"}, "build": dict(lst, values=["a", "a"], index=1, vstate={"flags": [[0, False]]})})
+        out.append({"v": {"cls": "NotDuplicated"}, "build": dict(lst, values=["a", "b", "a"], index=2, vstate={
+            "flags": [[0, False], [1, None], ["container", False]], "sib_errors": [[0, ["left over"]]]})})
         # seeded C15-setwithknown-checks-current-members: a SparseDict set() with allowed keys, a member dropped, then validated
         for after in ([{"op": "pop", "key": "y"}], [{"op": "del", "key": "x"}], [{"op": "clear"}],
                       [{"op": "pop", "key": "x"}, {"op": "assign", "key": "x"}]):
@@ -1815,6 +1937,8 @@ class C15(Property):
             yield finish(c)
         for c in all_dup_positions():
             yield finish(c)
+        for c in vstate_dup_cases():
+            yield finish(c)
         # every member count 0..5 against every bound 0..4
         for n in range(0, 6):
             for bound in range(0, 5):
@@ -1859,7 +1983,7 @@ class C15(Property):
             yield finish({"v": {"cls": "Luhn10"}, "build": {"kind": "Integer", "name": "cc", "set": n}})
 
     exhaustive_note = ("every comparison class at value = bound-1, bound, bound+1, None, unadapted; length classes at every length 0..6; "
-                       "NotDuplicated with one duplicate at every pair of positions of a 4-member List/Array checked at every index; "
+                       "NotDuplicated with one duplicate at every pair of positions of a 4-member List/Array checked at every index; NotDuplicated at every member of every 2-3 member list over two values after a whole-tree validate() under three member chains and under every assignment of valid in {True, False, Unevaluated} to the members; "
                        "member counts 0..5 against every bound 0..4; SetWithKnownFields/SetWithAllFields on a SparseDict set with each of 4 key sets followed by every sequence of 1-2 member operations (pop / del / clear / item assignment) out of 6; SetWithKnownFields/SetWithAllFields after every sequence of 2 (thorough: also 3) inputs out of 11 kinds (complete / stray key / missing key / pairs / set_flat / None / five kinds of garbage); IsEmail on 1..32 international labels (text length vs IDN length around 253) and on 60/62/63/64-character ASCII labels; Luhn10 on every integer below 2000 (thorough: 20000)")
 
     def generate(self, rng, n, tier):
@@ -1950,6 +2074,16 @@ class C15(Property):
             t.append("hyp:messages_total=holds")
         if b.get("history"):
             t.append("history=%d" % len(b["history"]))
+        vs = b.get("vstate")
+        if vs:
+            t.append("prior-validation-state")
+            for k in ("prevalidate", "member_validators", "repair", "append", "flags", "sib_errors"):
+                if vs.get(k):
+                    t.append("vstate:" + k)
+            st = case["view"].get("sibling_state") or []
+            pos = case["view"].get("pos")
+            if pos is not None and any(x[0] is False for x in st[:pos]):
+                t.append("vstate:earlier-sibling-invalid")
         if b.get("sparse"):
             t.append("sparse-dict")
         if b.get("after"):
@@ -1984,6 +2118,14 @@ class C15(Property):
         for i in range(len(b.get("history", []))):
             c = copy.deepcopy(case)
             del c["build"]["history"][i]
+            r = redo(c)
+            if r:
+                yield r
+        for k in list(b.get("vstate", {}).keys()):
+            c = copy.deepcopy(case)
+            del c["build"]["vstate"][k]
+            if k == "append" and "index" in b:
+                continue
             r = redo(c)
             if r:
                 yield r
